@@ -372,12 +372,15 @@ def combinatorial_open_writers(c):
         f"forall(i, 0, len(adapter_names), forall(j, 0, len(adapter_names2), member(g_all, id_at(adapter_names, i), id_at(adapter_names2, j))))",
         a_writer_for_every_combination_of_an_R1_and_an_R2_name=
         f"forall(i, 0, len(adapter_names), forall(j, 0, len(adapter_names2), implies(member(g_all, id_at(adapter_names, i), id_at(adapter_names2, j)), {R(AT(N1, N2))})))",
+        unless_discarded_the_unmatched_combinations_are_enumerated=
+        "implies(not discard_untrimmed, member(g_all, -1, -1) and forall(j, 0, len(adapter_names2), member(g_all, -1, id_at(adapter_names2, j))) and "
+        "forall(i, 0, len(adapter_names), member(g_all, id_at(adapter_names, i), -1)))",
         unless_discarded_a_writer_for_pairs_without_any_match=
-        f"implies(not discard_untrimmed, member(g_all, -1, -1) and {R(AT(NONE, NONE))})",
+        f"implies(not discard_untrimmed and member(g_all, -1, -1), {R(AT(NONE, NONE))})",
         unless_discarded_a_writer_for_every_R2_name_with_R1_unmatched=
-        f"implies(not discard_untrimmed, forall(j, 0, len(adapter_names2), member(g_all, -1, id_at(adapter_names2, j)) and {R(AT(NONE, N2))}))",
+        f"implies(not discard_untrimmed, forall(j, 0, len(adapter_names2), implies(member(g_all, -1, id_at(adapter_names2, j)), {R(AT(NONE, N2))})))",
         unless_discarded_a_writer_for_every_R1_name_with_R2_unmatched=
-        f"implies(not discard_untrimmed, forall(i, 0, len(adapter_names), member(g_all, id_at(adapter_names, i), -1) and {R(AT(N1, NONE))}))",
+        f"implies(not discard_untrimmed, forall(i, 0, len(adapter_names), implies(member(g_all, id_at(adapter_names, i), -1), {R(AT(N1, NONE))})))",
     )
     c.mutant("extra += [(name1, None) for name1 in adapter_names]", "extra += [(name1, None) for name1 in adapter_names2]")
     c.mutant("path2 = template2.replace('{name1}', fname1)", "path2 = template1.replace('{name1}', fname1)")
